@@ -71,10 +71,10 @@ fn main() {
                 let subs = subjects::subjects(kind, &lits_for(tier), &flags_for(kind, tier));
                 let inp = gen::inputs(kind, tier);
                 let params = C01Params {
-                    all_len: tier.pick(8, 12),
-                    dev_bound: tier.pick(1, 2),
+                    all_len: tier.pick(9, 12),
+                    dev_bound: 2,
                     dev_interrupts: 1,
-                    dev2_max_len: 120,
+                    dev2_max_len: tier.pick(48, 120),
                     uni: tier.pick(vec![1, 2, 3, 7, 8, 9], (1..=17).collect()),
                     chunks: tier.pick(vec![Some(1), Some(3), Some(8), None], vec![Some(1), Some(2), Some(3), Some(7), Some(8), Some(9), Some(16), None]),
                 };
